@@ -1,6 +1,6 @@
 (** * C04: the impl header of fn / mod expansions with generic dependencies — the declared bounds bubble up exactly *)
 From Coq Require Import List String Ascii Bool Arith Lia.
-From Entrait Require Import Tok Syn Opts Split FnParams Convert Codegen Expand Proj Proj2 Proj3.
+From Entrait Require Import Tok Syn Opts Split FnParams Convert Codegen Expand Proj Proj2 Proj3 ProjSide.
 From Entrait.Proofs Require Import Base Shapes PFnParams PC05 PC19.
 Import ListNotations.
 Local Open Scope string_scope.
@@ -46,10 +46,6 @@ Proof.
   destruct (deps_where_step name (b, tg) w) as [b' tg']. cbn [fst] in H. subst b'.
   rewrite IH, <- app_assoc. reflexivity.
 Qed.
-
-(** names of the type parameters *)
-Definition tparam_names (g : generics) : list string :=
-  map gp_name (filter (fun p => match gp_kind p with GType => true | _ => false end) (p_items (g_params g))).
 
 Lemma pcontrib_absent name : forall l,
   ~ In name (map gp_name (filter (fun p => match gp_kind p with GType => true | _ => false end) l)) ->
@@ -132,10 +128,6 @@ Proof.
       unfold stripped_inputs. cbn [p_items]. rewrite Hi. cbn [map strip_arg_attrs first_ref].
       destruct ty; reflexivity.
 Qed.
-
-Definition c04_sig_side (s : sig) : bool :=
-  nodup_str (tparam_names (s_gen s)) &&
-  forallb (fun w => negb (is_prefix [TId "Self"; pc ":"] (wp_toks w))) (where_items (s_gen s)).
 
 Lemma fn_c04 o s tf :
   fn_ok RSelfRef o s tf ->
@@ -292,16 +284,6 @@ Proof.
 Qed.
 
 (** ** side condition and view *)
-Definition c04_side (c : ctx) : bool :=
-  match x_input c with
-  | InFn _ _ _ | InMod _ _ _ _ _ =>
-      match source_fns (x_input c) with
-      | Some src => forallb c04_sig_side (map sig_of src)
-      | None => true
-      end
-  | _ => true
-  end.
-
 Lemma c04_side_split sigs :
   forallb c04_sig_side sigs = true ->
   forallb (fun s => nodup_str (tparam_names (s_gen s))) sigs = true /\
@@ -482,4 +464,11 @@ Proof.
     try (vm_compute in E; discriminate E).
   exists items. split; [reflexivity|]. vm_compute in E. injection E as <-.
   intros G. destruct (G eq_refl) as [_ G2]. vm_compute in G2. discriminate G2.
+Qed.
+
+(** the guarded view the checker runs *)
+Lemma c04_view v attr i items :
+  expand_items v attr i = Ok items -> good (view_C04g (mkCtx v attr i) items).
+Proof.
+  intros H. unfold view_C04g. destruct (c04_side (mkCtx v attr i)) eqn:E; [exact (c04_view_partial _ _ _ _ H E) | exact good_na].
 Qed.
